@@ -13,7 +13,7 @@ import calgen
 import physics
 from runner import Script, cx, hx, qs
 
-NAMES = ["A", "B", "AB", "C", "A B", "\xe9t\xe9", "B2"]
+NAMES = ["A", "B", "AB", "C", "A B", "\xc3\xa9t\xc3\xa9", "B2"]
 MAXP = 1000   # VNACAL_MAX_PRECISION
 
 
@@ -34,6 +34,7 @@ class HandleGen(object):
         self.tags = {}          # line -> tag
         self.applies = []       # dict(apply=, dump=, addcal=, sc=, duts=, kappa=)
         self.addcals = {}       # line -> dict(sc, complete)
+        self.unknown_checks = []  # dict(solve=, line=, truth=, kappa=)
         self.n = 0
         self.vcs = {}
         self.nops = 0
@@ -86,12 +87,26 @@ class HandleGen(object):
         sc, kappa = self.scenario()
         if sc is None:
             return
+        if r.random() < 0.35:
+            # one more reflect standard whose value the library must solve for
+            g = complex(r.standard_normal(), r.standard_normal()) * 0.4
+            st = sc.add_reflect([int(r.integers(1, min(sc.r, sc.c) + 1))], [calgen.Param(
+                "scalar", np.full(sc.F, g, dtype=complex))])
+            st.entry, st.form = "single_reflect", sc.form
+            st.full_rows = st.full_cols = True
+            st.use_null_map = False
+            st.unknown = g
+            sc.iterative = True
         name = self.uid("vn")
         vc["nvn"] += 1
         s.op("%s=vnacal_new_alloc $%s %s %d %d %d" % (
             name, vcname, sc.ctype, sc.r, sc.c, sc.F))
         s.rvec("freq", sc.freqs)
         s.op("vnacal_new_set_frequency_vector $%s @freq" % name)
+        if getattr(sc, "iterative", False):
+            # the unknown makes the solve iterative: ask for full precision
+            s.op("vnacal_new_set_p_tolerance $%s %s" % (name, hx(1e-13)))
+            s.op("vnacal_new_set_et_tolerance $%s %s" % (name, hx(1e-13)))
         if r.random() < 0.3:
             sc.z0 = complex(r.choice([75.0, 50 + 5j, 1.0]))
             s.op("vnacal_new_set_z0 $%s %s" % (name, cx(sc.z0)))
@@ -112,6 +127,16 @@ class HandleGen(object):
             st = vn.sc.stds[vn.next]
             self.s.rvec("freq", vn.sc.freqs)
             self.n += 1
+            unk = getattr(st, "unknown", None)
+            if unk is not None:
+                guess = unk * (1 + 0.05 * self.rng.standard_normal()) + 0.02
+                self.s.op("ug%d=vnacal_make_scalar_parameter $%s %s" % (
+                    self.n, vcname, cx(guess)))
+                self.s.op("uu%d=vnacal_make_unknown_parameter $%s $ug%d" % (
+                    self.n, vcname, self.n))
+                st.sp[0][0].var = "$uu%d" % self.n
+                vc["params"]["$ug%d" % self.n] = dict(kind="scalar", g=guess)
+                vn.unknown = dict(var="$uu%d" % self.n, truth=unk)
             vn.sc.emit_std(self.s, st, self.n, vc=vcname, vn=vn.name,
                            uid=vn.uid)
             for row in st.sp:
@@ -120,6 +145,8 @@ class HandleGen(object):
                         vn.used.append(prm.var)
                         vc["params"][prm.var] = dict(kind=prm.kind, prm=prm,
                                                      sc=vn.sc)
+            if unk is not None:
+                vc["params"][vn.unknown["var"]]["kind"] = "unknown"
             vn.next += 1
             vn.solved_after_last_add = False
             self.nops += 1
@@ -134,10 +161,18 @@ class HandleGen(object):
                 and not v.solved_after_last_add]
         vn = full[0] if full and self.rng.random() < 0.8 else \
             vns[int(self.rng.integers(0, len(vns)))]
-        self.s.op("vnacal_new_solve $%s" % vn.name)
+        ls = self.s.op("vnacal_new_solve $%s" % vn.name)
         vn.any_solve = True
         if vn.next >= len(vn.sc.stds):
             vn.solved_after_last_add = True
+            unk = getattr(vn, "unknown", None)
+            if unk is not None and not vc["params"][unk["var"]].get("dead"):
+                self.s.rvec("freq", vn.sc.freqs)
+                ln = self.s.op("vnacal_get_parameter_values $%s %s @freq" % (
+                    vcname, unk["var"]))
+                self.unknown_checks.append(dict(solve=ls, line=ln,
+                                                truth=unk["truth"],
+                                                kappa=vn.kappa))
         return True
 
     def step_addcal(self, vcname):
